@@ -18,9 +18,11 @@ pub fn spec(tier: Tier) -> RelSpec {
             mk(2, vec![SrcKind::LetSortedTwoReaders], 1),
             // sort / join / take / group interplay at depth 4 over a 9-letter alphabet
             GenCfg { depth: 4, sources: vec![SrcKind::OpenT, SrcKind::LetClosed], max_joins: 1, letters: Letters::OrderSplit },
+            // consecutive takes under orders that differ in direction only, with a later grouped aggregate
+            GenCfg { depth: 5, sources: vec![SrcKind::OpenT], max_joins: 0, letters: Letters::TakeChain },
         ],
         // depth 4 meets further untriaged defect causes (DESIGN §9.3): thorough widens sources and instances instead
-        Tier::Thorough => vec![mk(3, vec![SrcKind::OpenT, SrcKind::LetSorted, SrcKind::SubClosed, SrcKind::Literal, SrcKind::LetClosed], 1), mk(3, vec![SrcKind::LetSortedTwoReaders], 1), GenCfg { depth: 5, sources: vec![SrcKind::OpenT, SrcKind::LetClosed, SrcKind::LetSorted], max_joins: 1, letters: Letters::OrderSplit }],
+        Tier::Thorough => vec![mk(3, vec![SrcKind::OpenT, SrcKind::LetSorted, SrcKind::SubClosed, SrcKind::Literal, SrcKind::LetClosed], 1), mk(3, vec![SrcKind::LetSortedTwoReaders], 1), GenCfg { depth: 5, sources: vec![SrcKind::OpenT, SrcKind::LetClosed, SrcKind::LetSorted], max_joins: 1, letters: Letters::OrderSplit }, GenCfg { depth: 6, sources: vec![SrcKind::OpenT, SrcKind::LetClosed], max_joins: 0, letters: Letters::TakeChain }],
     };
     RelSpec {
         property: "C03",
